@@ -412,6 +412,9 @@ def step (st : DState) (line : String) : DState × String :=
         fun H => { st.m with H := H })
   | ["OP", "insert_ctl", c, new, ps, ss] => reply st (Model.insertCtl st.m c new (lst ps) (lst ss))
   | ["OP", "join_returns", c] => reply st (Model.joinReturns st.m c)
+  | ["OP", "restructure_loop", c] => reply st (Model.restructureLoop st.m c)
+  | ["OP", "restructure_branch", c] => reply st (Model.restructureBranch st.m c)
+  | ["OP", "restructure", c] => reply st (Model.restructure st.m c)
   | ["OP", "join_tails_exits", c, ts, es] =>
     match Model.joinTailsExits st.m c (lst ts) (lst es) with
     | .ok (m, t, e) => reply st (.ok m) s!" {t} {e}"
